@@ -1,7 +1,7 @@
 SPECIFICATION Spec
 CONSTANTS
   NRs = {2,3,4}
-  Ns = {0,1,2,3,4}
+  Ns = {0,1,2,3}
   Vals = {0,3}
   Wts = {0,1,2}
   WDen = 1
